@@ -1,9 +1,11 @@
 /-
   Helper lemmas for C14: specification of conditional configuration (`spec`, `Applies`),
-  cache coherence of `check`, correctness of the clear walk and of `resetItem`.
+  cache coherence of `check`, correctness of the clear walk (`clearNode`) and of
+  `resetItem`, directive merge, host[:port] rule.
 -/
 import LtVerif.Model.Cond
 namespace LtVerif.Cond
+open LtVerif B
 
 /-! ### cache columns -/
 
@@ -866,4 +868,550 @@ theorem resetItem_coh {t : Tree} (hwf : WF t) (a : Comp) {e e' : Env} {c : Cache
       · exact absurd (h ▸ hpu) hp0
       · exact h.2.elim id (fun f => f.elim)
     exact hne (hS.cleared _ (hSchild _ hSp hp0 j hj rfl h0))
+
+/-! ### the property statement, declaratively -/
+
+/-- `Earlier t i q`: `q` is an earlier branch of the if/else chain of block `i` -/
+inductive Earlier (t : Tree) : Nat → Nat → Prop
+  | prev {i q} : (t.node i).prev = some q → Earlier t i q
+  | step {i q q'} : (t.node i).prev = some q → Earlier t q q' → Earlier t i q'
+
+/-- a conditional block contributes iff its own condition holds for the request, every
+    enclosing block contributes, and every earlier branch of its chain failed -/
+inductive Applies (t : Tree) (e : Env) : Nat → Prop
+  | top {i} : evalLocal (t.node i) e = true → (t.node i).parent = 0 →
+      (∀ q, Earlier t i q → evalLocal (t.node q) e = false) → Applies t e i
+  | nested {i} : evalLocal (t.node i) e = true → Applies t e (t.node i).parent →
+      (∀ q, Earlier t i q → evalLocal (t.node q) e = false) → Applies t e i
+
+def parentSpec (t : Tree) (e : Env) (i : Nat) : Res :=
+  if (t.node i).parent ≠ 0 then spec t e (t.node i).parent else .true_
+
+def prevSpec (t : Tree) (e : Env) (i : Nat) : Res :=
+  match (t.node i).prev with
+  | some q => spec t e q
+  | none => .false_
+
+theorem spec_unfold' {t : Tree} (hwf : WF t) (e : Env) {i : Nat} (hi : i < t.length) :
+    spec t e i = combine (parentSpec t e i) (prevSpec t e i) (Res.ofBool (evalLocal (t.node i) e)) := by
+  rw [spec_unfold hwf e hi]; rfl
+
+theorem combine_eq_true {pr qr l : Res} :
+    combine pr qr l = .true_ ↔ pr = .true_ ∧ qr = .false_ ∧ l = .true_ := by
+  cases pr <;> cases qr <;> cases l <;> simp [combine]
+
+theorem combine_eq_false {pr qr l : Res} :
+    combine pr qr l = .false_ ↔ pr = .true_ ∧ qr = .false_ ∧ l = .false_ := by
+  cases pr <;> cases qr <;> cases l <;> simp [combine]
+
+theorem ofBool_eq_true {b : Bool} : Res.ofBool b = .true_ ↔ b = true := by
+  cases b <;> simp [Res.ofBool]
+
+theorem ofBool_eq_false {b : Bool} : Res.ofBool b = .false_ ↔ b = false := by
+  cases b <;> simp [Res.ofBool]
+
+theorem earlier_iff {t : Tree} {i q' : Nat} :
+    Earlier t i q' ↔ ∃ q, (t.node i).prev = some q ∧ (q' = q ∨ Earlier t q q') := by
+  constructor
+  · intro h
+    cases h with
+    | prev h => exact ⟨_, h, Or.inl rfl⟩
+    | step h h' => exact ⟨_, h, Or.inr h'⟩
+  · rintro ⟨q, h, h' | h'⟩
+    · subst h'; exact .prev h
+    · exact .step h h'
+
+/-- `spec` is the recursion the property states -/
+theorem spec_char {t : Tree} (hwf : WF t) (e : Env) :
+    ∀ i, i < t.length → ∀ x : Bool,
+      (spec t e i = Res.ofBool x ↔
+        ((t.node i).parent = 0 ∨ spec t e (t.node i).parent = .true_) ∧
+        (∀ q, Earlier t i q → evalLocal (t.node q) e = false) ∧ evalLocal (t.node i) e = x) := by
+  intro i
+  induction i using Nat.strongRecOn with
+  | _ i ih =>
+    intro hi x
+    have hcomb : ∀ pr qr l, combine pr qr l = Res.ofBool x ↔
+        pr = .true_ ∧ qr = .false_ ∧ l = Res.ofBool x := by
+      intro pr qr l
+      cases x
+      · exact combine_eq_false
+      · exact combine_eq_true
+    have hob : Res.ofBool (evalLocal (t.node i) e) = Res.ofBool x ↔ evalLocal (t.node i) e = x := by
+      cases x <;> cases evalLocal (t.node i) e <;> simp [Res.ofBool]
+    rw [spec_unfold' hwf e hi, hcomb, hob]
+    have hpar : parentSpec t e i = .true_ ↔
+        ((t.node i).parent = 0 ∨ spec t e (t.node i).parent = .true_) := by
+      unfold parentSpec
+      by_cases h0 : (t.node i).parent = 0
+      · simp [h0]
+      · simp [h0]
+    rw [hpar]
+    have hprev : ((t.node i).parent = 0 ∨ spec t e (t.node i).parent = .true_) →
+        (prevSpec t e i = .false_ ↔ (∀ q, Earlier t i q → evalLocal (t.node q) e = false)) := by
+      intro hP
+      unfold prevSpec
+      cases hpv : (t.node i).prev with
+      | none =>
+        simp only [true_iff]
+        intro q hq
+        obtain ⟨q0, h, _⟩ := earlier_iff.mp hq
+        rw [hpv] at h; cases h
+      | some q =>
+        obtain ⟨_, hqi, hqp, _⟩ := hwf.prev_ok i hi q (Option.mem_def.mpr hpv)
+        simp only
+        have := ih q hqi (by omega) false
+        simp only [Res.ofBool, Bool.false_eq_true, if_false] at this
+        rw [this]
+        constructor
+        · rintro ⟨_, hE, hl⟩ q' hq'
+          obtain ⟨q0, h, h'⟩ := earlier_iff.mp hq'
+          rw [hpv] at h; cases h
+          rcases h' with h' | h'
+          · subst h'; exact hl
+          · exact hE q' h'
+        · intro h
+          exact ⟨by rw [hqp]; exact hP, fun q' hq' => h q' (.step hpv hq'), h q (.prev hpv)⟩
+    constructor
+    · rintro ⟨h1, h2, h3⟩; exact ⟨h1, (hprev h1).mp h2, h3⟩
+    · rintro ⟨h1, h2, h3⟩; exact ⟨h1, (hprev h1).mpr h2, h3⟩
+
+/-- the cached evaluation's `true` is exactly "the block contributes" -/
+theorem spec_true_iff_applies {t : Tree} (hwf : WF t) (e : Env) :
+    ∀ i, i < t.length → (spec t e i = .true_ ↔ Applies t e i) := by
+  intro i
+  induction i using Nat.strongRecOn with
+  | _ i ih =>
+    intro hi
+    have h := spec_char hwf e i hi true
+    simp only [Res.ofBool, if_true] at h
+    rw [h]
+    constructor
+    · rintro ⟨hp, hE, hl⟩
+      rcases hp with hp | hp
+      · exact .top hl hp hE
+      · by_cases h0 : (t.node i).parent = 0
+        · exact .top hl h0 hE
+        · have hlt := hwf.parent_lt i hi h0
+          exact .nested hl ((ih _ hlt (by omega)).mp hp) hE
+    · intro ha
+      cases ha with
+      | top hl hp hE => exact ⟨Or.inl hp, hE, hl⟩
+      | nested hl hp hE =>
+        by_cases h0 : (t.node i).parent = 0
+        · exact ⟨Or.inl h0, hE, hl⟩
+        · have hlt := hwf.parent_lt i hi h0
+          exact ⟨Or.inr ((ih _ hlt (by omega)).mpr hp), hE, hl⟩
+
+/-! ### attribute rewrites touch only their own field -/
+
+theorem attr_set_other (nd : Node) (e : Env) (a : Comp) (v : AttrVal) (h : nd.comp ≠ a) :
+    attr nd (e.set a v) = attr nd e ∧ (nd.comp = .remoteIp → (e.set a v).addr = e.addr) := by
+  cases a <;> cases v <;> cases hc : nd.comp <;> simp_all [attr, Env.set]
+
+theorem evalLocal_set_other (nd : Node) (e : Env) (a : Comp) (v : AttrVal) (h : nd.comp ≠ a) :
+    evalLocal nd (e.set a v) = evalLocal nd e := by
+  obtain ⟨h1, h2⟩ := attr_set_other nd e a v h
+  unfold evalLocal eqLike
+  simp only [h1]
+  by_cases hr : nd.comp = .remoteIp
+  · simp only [h2 hr]
+  · simp [hr]
+
+/-! ### operations on a connection -/
+
+def AllCoh (t : Tree) (st : List Req) : Prop := ∀ rq ∈ st, Coh t rq.env rq.cache
+
+theorem allCoh_set {t : Tree} {st : List Req} (h : AllCoh t st) (s : Nat) {rq : Req}
+    (hrq : Coh t rq.env rq.cache) : AllCoh t (st.set s rq) := by
+  intro x hx
+  rcases List.mem_or_eq_of_mem_set hx with hx | hx
+  · exact h x hx
+  · subst hx; exact hrq
+
+/-! ### directive merge -/
+
+/-- the last value assigned to directive `d` in a block's assignment list -/
+def lastSet : List (Nat × Nat) → Nat → Option Nat
+  | [], _ => none
+  | s :: ss, d =>
+    match lastSet ss d with
+    | some v => some v
+    | none => if s.1 = d then some s.2 else none
+
+theorem mergeSets_eq (sets : List (Nat × Nat)) :
+    ∀ (conf : Nat → Nat) (d : Nat), mergeSets conf sets d = (lastSet sets d).getD (conf d) := by
+  induction sets with
+  | nil => intro conf d; rfl
+  | cons s ss ih =>
+    intro conf d
+    unfold mergeSets at ih ⊢
+    simp only [List.foldl_cons, lastSet]
+    rw [ih]
+    cases hl : lastSet ss d with
+    | some v => simp
+    | none =>
+      by_cases hd : s.1 = d
+      · simp [hd]
+      · have : ¬ d = s.1 := fun h => hd h.symm
+        simp [hd, this]
+
+/-- the merge a module would compute if it evaluated every block from scratch -/
+def specMerge (t : Tree) (e : Env) (dirs : List Nat) : List Nat → (Nat → Nat) → (Nat → Nat)
+  | [], conf => conf
+  | i :: is, conf =>
+    specMerge t e dirs is
+      (if spec t e i = .true_ then mergeSets conf (ownSets dirs (t.node i)) else conf)
+
+theorem mergeSets_nil (conf : Nat → Nat) : mergeSets conf [] = conf := rfl
+
+theorem patchLoop_post {t : Tree} (hwf : WF t) (e : Env) (valid : Comp → Bool) (dirs : List Nat) :
+    ∀ (L : List Nat), (∀ i ∈ L, i < t.length) → ∀ (conf : Nat → Nat) (c : Cache), Coh t e c →
+      Coh t e (patchLoop t e valid dirs L (conf, c)).2 ∧
+      ((∀ k, valid k = true) →
+        (patchLoop t e valid dirs L (conf, c)).1 = specMerge t e dirs L conf) := by
+  intro L
+  induction L with
+  | nil => intro _ conf c hc; exact ⟨hc, fun _ => rfl⟩
+  | cons i is ih =>
+    intro hL conf c hc
+    have hi : i < t.length := hL i (by simp)
+    have hL' : ∀ j ∈ is, j < t.length := fun j hj => hL j (by simp [hj])
+    rw [patchLoop]
+    by_cases hown : (ownSets dirs (t.node i)).isEmpty = true
+    · simp only [hown, if_true]
+      obtain ⟨h1, h2⟩ := ih hL' conf c hc
+      refine ⟨h1, fun hv => ?_⟩
+      rw [h2 hv, specMerge]
+      have : ownSets dirs (t.node i) = [] := by simpa using hown
+      rw [this, mergeSets_nil]; simp
+    · have hown' : (ownSets dirs (t.node i)).isEmpty = false := by simpa using hown
+      simp only [hown', Bool.false_eq_true, if_false]
+      obtain ⟨p1, p2, _, p4⟩ := check_post hwf e valid t.length i c hi hi hc
+      obtain ⟨h1, h2⟩ := ih hL'
+        (if (check t e valid t.length i c).1 = .true_ then mergeSets conf (ownSets dirs (t.node i))
+          else conf) (check t e valid t.length i c).2 p1
+      refine ⟨h1, fun hv => ?_⟩
+      rw [h2 hv, specMerge, (p2 (p4 hv)).1]
+
+theorem specMerge_append (t : Tree) (e : Env) (dirs : List Nat) :
+    ∀ (L1 L2 : List Nat) (conf : Nat → Nat),
+      specMerge t e dirs (L1 ++ L2) conf = specMerge t e dirs L2 (specMerge t e dirs L1 conf) := by
+  intro L1
+  induction L1 with
+  | nil => intro L2 conf; rfl
+  | cons i is ih => intro L2 conf; simp only [List.cons_append, specMerge]; rw [ih]
+
+/-- block `i` contributes value `v` for directive `d` of the module owning `dirs` -/
+def Contrib (t : Tree) (e : Env) (dirs : List Nat) (d i v : Nat) : Prop :=
+  spec t e i = .true_ ∧ lastSet (ownSets dirs (t.node i)) d = some v
+
+theorem specMerge_none (t : Tree) (e : Env) (dirs : List Nat) (d : Nat) :
+    ∀ (L : List Nat) (conf : Nat → Nat), (∀ i ∈ L, ∀ v, ¬ Contrib t e dirs d i v) →
+      specMerge t e dirs L conf d = conf d := by
+  intro L
+  induction L with
+  | nil => intro conf _; rfl
+  | cons i is ih =>
+    intro conf h
+    rw [specMerge, ih _ (fun j hj => h j (by simp [hj]))]
+    by_cases hs : spec t e i = .true_
+    · simp only [hs, if_true]
+      rw [mergeSets_eq]
+      cases hl : lastSet (ownSets dirs (t.node i)) d with
+      | none => rfl
+      | some v => exact absurd ⟨hs, hl⟩ (h i (by simp) v)
+    · simp [hs]
+
+theorem specMerge_last (t : Tree) (e : Env) (dirs : List Nat) (d : Nat)
+    (L1 L2 : List Nat) (i v : Nat) (conf : Nat → Nat) (hc : Contrib t e dirs d i v)
+    (hlater : ∀ j ∈ L2, ∀ v', ¬ Contrib t e dirs d j v') :
+    specMerge t e dirs (L1 ++ i :: L2) conf d = v := by
+  rw [specMerge_append, specMerge, specMerge_none t e dirs d L2 _ hlater]
+  simp only [hc.1, if_true]
+  rw [mergeSets_eq, hc.2]; rfl
+
+theorem patch_post {t : Tree} (hwf : WF t) (e : Env) (valid : Comp → Bool) (dirs : List Nat)
+    (c : Cache) (hc : Coh t e c) :
+    Coh t e (patch t e valid dirs c).2 ∧
+    ((∀ k, valid k = true) →
+      (patch t e valid dirs c).1 =
+        specMerge t e dirs ((List.range t.length).drop 1)
+          (mergeSets (fun _ => 0) (ownSets dirs (t.node 0)))) := by
+  unfold patch
+  exact patchLoop_post hwf e valid dirs _
+    (fun i hi => by have := List.mem_of_mem_drop hi; simpa using this) _ c hc
+
+theorem range_split {n i : Nat} (h1 : 1 ≤ i) (hi : i < n) :
+    ∃ L1 L2, (List.range n).drop 1 = L1 ++ i :: L2 ∧ ∀ j ∈ L2, i < j ∧ j < n := by
+  have hmem : i ∈ (List.range n).drop 1 := by
+    rw [List.mem_iff_getElem]
+    refine ⟨i - 1, by simp; omega, ?_⟩
+    simp; omega
+  obtain ⟨L1, L2, hL⟩ := List.append_of_mem hmem
+  refine ⟨L1, L2, hL, ?_⟩
+  have hpw : ((List.range n).drop 1).Pairwise (· < ·) :=
+    List.Pairwise.sublist (List.drop_sublist 1 _) List.pairwise_lt_range
+  rw [hL, List.pairwise_append] at hpw
+  intro j hj
+  have h2 := (List.pairwise_cons.mp hpw.2.1).1 j hj
+  have h3 : j ∈ (List.range n).drop 1 := by rw [hL]; simp [hj]
+  have h4 := List.mem_of_mem_drop h3
+  exact ⟨h2, by simpa using h4⟩
+
+theorem step_coh {t : Tree} (hwf : WF t) {st : List Req} (h : AllCoh t st) (op : Op) :
+    AllCoh t (step true t st op).1 := by
+  cases op with
+  | check s i =>
+    simp only [step]
+    cases hs : st[s]? with
+    | none => exact h
+    | some rq =>
+      simp only
+      by_cases hi : i < t.length
+      · simp only [hi, if_true]
+        have hrq := h rq (List.mem_of_getElem? hs)
+        exact allCoh_set h s (check_post hwf rq.env rq.valid t.length i rq.cache hi hi hrq).1
+      · simp only [hi, if_false]; exact h
+  | setAttr s a v =>
+    simp only [step]
+    cases hs : st[s]? with
+    | none => exact h
+    | some rq =>
+      have hrq := h rq (List.mem_of_getElem? hs)
+      exact allCoh_set h s (resetItem_coh hwf a hrq
+        (fun j _ hj => evalLocal_set_other _ _ _ _ hj))
+  | resetAll s =>
+    simp only [step]
+    cases hs : st[s]? with
+    | none => exact h
+    | some rq => exact allCoh_set h s (coh_empty t _)
+  | setValid s v =>
+    simp only [step]
+    cases hs : st[s]? with
+    | none => exact h
+    | some rq => exact allCoh_set h s (h rq (List.mem_of_getElem? hs))
+  | newReq s sets v =>
+    simp only [step]
+    cases hs : st[s]? with
+    | none => exact h
+    | some rq => exact allCoh_set h s (coh_empty t _)
+  | spawn =>
+    simp only [step]
+    cases hs : st[0]? with
+    | none => exact h
+    | some rq =>
+      intro x hx
+      simp only [List.mem_append, List.mem_singleton] at hx
+      rcases hx with hx | hx
+      · exact h x hx
+      · subst hx; exact h _ (List.mem_of_getElem? hs)
+  | patch s dirs =>
+    simp only [step]
+    cases hs : st[s]? with
+    | none => exact h
+    | some rq =>
+      have hrq := h rq (List.mem_of_getElem? hs)
+      exact allCoh_set h s (patch_post hwf rq.env rq.valid dirs rq.cache hrq).1
+
+/-! ### host[:port] -/
+
+theorem split_at_colon {l d : Bytes} {c : UInt8} (hlen : d.length < l.length) :
+    (l.getD d.length 0 = c ∧ l.take d.length = d) ↔ ∃ p, l = d ++ c :: p := by
+  constructor
+  · rintro ⟨hc, ht⟩
+    refine ⟨l.drop (d.length + 1), ?_⟩
+    have h1 := List.take_append_drop d.length l
+    rw [ht, List.drop_eq_getElem_cons hlen] at h1
+    rw [List.getD_eq_getElem?_getD, List.getElem?_eq_getElem hlen] at hc
+    simp only [Option.getD_some] at hc
+    rw [hc] at h1
+    exact h1.symm
+  · rintro ⟨p, rfl⟩
+    constructor
+    · simp [List.getD_eq_getElem?_getD]
+    · simp
+
+theorem hostPort_iff (l d : Bytes) (hne : l.length ≠ d.length) :
+    hostPort l d = true ↔
+      (∃ p, l = d ++ colon :: p ∧ p.length ≤ 5) ∨ (∃ p, d = l ++ colon :: p) := by
+  unfold hostPort
+  by_cases hgt : l.length > d.length
+  · simp only [hgt, if_true, Bool.and_eq_true, beq_iff_eq, decide_eq_true_eq]
+    constructor
+    · rintro ⟨⟨hc, hl6⟩, ht⟩
+      obtain ⟨p, hp⟩ := (split_at_colon hgt).mp ⟨hc, ht⟩
+      refine Or.inl ⟨p, hp, ?_⟩
+      have := congrArg List.length hp
+      simp at this
+      omega
+    · rintro (⟨p, hp, hp5⟩ | ⟨p, hp⟩)
+      · obtain ⟨hc, ht⟩ := (split_at_colon hgt).mpr ⟨p, hp⟩
+        refine ⟨⟨hc, ?_⟩, ht⟩
+        have := congrArg List.length hp
+        simp at this
+        omega
+      · have := congrArg List.length hp
+        simp at this
+        omega
+  · have hlt : l.length < d.length := by omega
+    simp only [hgt, if_false, Bool.and_eq_true, beq_iff_eq]
+    constructor
+    · intro h
+      exact Or.inr ((split_at_colon hlt).mp h)
+    · rintro (⟨p, hp, _⟩ | hp)
+      · have := congrArg List.length hp
+        simp at this
+        omega
+      · exact (split_at_colon hlt).mpr hp
+
+/-- `$HTTP["host"] == "d"` (d not starting with '/'): equal, or equal up to a ":port"
+    suffix on one side (at most 5 port characters when it is the request that carries it),
+    and nothing else -/
+theorem host_eq_iff (nd : Node) (e : Env) (hc : nd.comp = .host) (hs : nd.str.head? ≠ some slash) :
+    eqLike nd e = true ↔
+      e.host = nd.str ∨
+      (e.host ≠ [] ∧ ((∃ p, e.host = nd.str ++ colon :: p ∧ p.length ≤ 5) ∨
+                      (∃ p, nd.str = e.host ++ colon :: p))) := by
+  unfold eqLike
+  have hattr : attr nd e = e.host := by simp [attr, hc]
+  simp only [hattr, hc, true_and, hs, ne_eq, not_false_eq_true]
+  by_cases h1 : e.host = []
+  · simp [h1]
+  · by_cases h2 : e.host.length = nd.str.length
+    · simp only [h1, h2, not_true_eq_false, and_false, if_false, not_false_eq_true, true_and]
+      constructor
+      · intro h; exact Or.inl (by simpa using h)
+      · rintro (h | ⟨p, hp, _⟩ | ⟨p, hp⟩)
+        · simp [h]
+        · have := congrArg List.length hp; simp at this; omega
+        · have := congrArg List.length hp; simp at this; omega
+    · simp only [h1, h2, not_false_eq_true, and_self, if_true, true_and]
+      rw [hostPort_iff _ _ h2]
+      constructor
+      · intro h; exact Or.inr h
+      · rintro (h | h)
+        · exact absurd (congrArg List.length h) h2
+        · exact h
+
+/-! ### whole operation sequences -/
+
+/-- what an observation must be, by the language definition, for the state it was made in -/
+def ObsOk (t : Tree) (st : List Req) : Obs → Prop
+  | .result s i r => i < t.length ∧ ∀ rq, st[s]? = some rq →
+      (r ≠ .unset → r = spec t rq.env i) ∧ ((∀ k, rq.valid k = true) → r = spec t rq.env i)
+  | .conf s dirs conf => ∀ rq, st[s]? = some rq → (∀ k, rq.valid k = true) →
+      conf = specMerge t rq.env dirs ((List.range t.length).drop 1)
+        (mergeSets (fun _ => 0) (ownSets dirs (t.node 0)))
+  | .none => True
+
+theorem step_obs {t : Tree} (hwf : WF t) {st : List Req} (h : AllCoh t st) (op : Op) :
+    ObsOk t (step true t st op).1 (step true t st op).2 := by
+  cases op with
+  | check s i =>
+    simp only [step]
+    cases hs : st[s]? with
+    | none => exact trivial
+    | some rq =>
+      simp only
+      by_cases hi : i < t.length
+      · simp only [hi, if_true]
+        have hrq := h rq (List.mem_of_getElem? hs)
+        obtain ⟨_, p2, _, p4⟩ := check_post hwf rq.env rq.valid t.length i rq.cache hi hi hrq
+        refine ⟨hi, ?_⟩
+        intro rq' hrq'
+        have hslt : s < st.length := by
+          rcases Nat.lt_or_ge s st.length with hl | hl
+          · exact hl
+          · rw [List.getElem?_eq_none hl] at hs; cases hs
+        rw [List.getElem?_set_self hslt] at hrq'
+        cases hrq'
+        exact ⟨fun hne => (p2 hne).1, fun hv => (p2 (p4 hv)).1⟩
+      · simp only [hi, if_false]; exact trivial
+  | setAttr s a v =>
+    simp only [step]; cases st[s]? <;> exact trivial
+  | resetAll s =>
+    simp only [step]; cases st[s]? <;> exact trivial
+  | setValid s v =>
+    simp only [step]; cases st[s]? <;> exact trivial
+  | newReq s sets v =>
+    simp only [step]; cases st[s]? <;> exact trivial
+  | spawn =>
+    simp only [step]; cases st[0]? <;> exact trivial
+  | patch s dirs =>
+    simp only [step]
+    cases hs : st[s]? with
+    | none => exact trivial
+    | some rq =>
+      simp only
+      have hrq := h rq (List.mem_of_getElem? hs)
+      obtain ⟨_, p2⟩ := patch_post hwf rq.env rq.valid dirs rq.cache hrq
+      intro rq' hrq' hv
+      have hslt : s < st.length := by
+        rcases Nat.lt_or_ge s st.length with hl | hl
+        · exact hl
+        · rw [List.getElem?_eq_none hl] at hs; cases hs
+      rw [List.getElem?_set_self hslt] at hrq'
+      cases hrq'
+      exact p2 hv
+
+theorem run_ok {t : Tree} (hwf : WF t) :
+    ∀ (ops : List Op) (st : List Req), AllCoh t st →
+      ∀ so ∈ run true t st ops, AllCoh t so.1 ∧ ObsOk t so.1 so.2 := by
+  intro ops
+  induction ops with
+  | nil => intro st _ so hso; simp [run] at hso
+  | cons op ops ih =>
+    intro st h so hso
+    simp only [run, List.mem_cons] at hso
+    rcases hso with hso | hso
+    · subst hso
+      exact ⟨step_coh hwf h op, step_obs hwf h op⟩
+    · exact ih _ (step_coh hwf h op) so hso
+
+/-! ### evaluation order -/
+
+/-- evaluate the blocks `ks` in the given order (as successive patch_config loops do) -/
+def checkAll (t : Tree) (e : Env) (valid : Comp → Bool) (ks : List Nat) (c : Cache) : Cache :=
+  ks.foldl (fun c k => (check t e valid t.length k c).2) c
+
+theorem checkAll_coh {t : Tree} (hwf : WF t) (e : Env) (valid : Comp → Bool) :
+    ∀ (ks : List Nat), (∀ k ∈ ks, k < t.length) → ∀ c, Coh t e c → Coh t e (checkAll t e valid ks c) := by
+  intro ks
+  induction ks with
+  | nil => intro _ c hc; exact hc
+  | cons k ks ih =>
+    intro hks c hc
+    have hk : k < t.length := hks k (by simp)
+    exact ih (fun j hj => hks j (by simp [hj])) _
+      (check_post hwf e valid t.length k c hk hk hc).1
+
+
+/-! ### the scenario of the stale else-branch (used by Props/C14) -/
+
+namespace Ex
+/-- `$HTTP["host"] == "h2" { $HTTP["url"] =^ "/a" {…} else $HTTP["url"] =^ "/b" {…} }` -/
+def tree : Tree := link
+  [ {},
+    { comp := .host, cond := .eq, str := ofString "h2" },
+    { parent := 1, comp := .url, cond := .prefix_, str := ofString "/a" },
+    { parent := 1, prev := some 2, comp := .url, cond := .prefix_, str := ofString "/b" } ]
+
+def allValid : List Comp :=
+  [.socket, .url, .host, .remoteIp, .query, .scheme, .method, .header]
+
+/-- request for host h1, url /b/x; module A evaluates the else-branch (3) only; then the
+    host is rewritten to h2 (+ reset_item); module A evaluates block 3 again -/
+def ops : List Op :=
+  [ .newReq 0 [(.host, .str (ofString "h1")), (.url, .str (ofString "/b/x"))] allValid,
+    .check 0 3,
+    .setAttr 0 .host (.str (ofString "h2")),
+    .check 0 3 ]
+
+def lastResult (l : List (List Req × Obs)) : Option Res :=
+  match l.getLast? with
+  | some (_, .result _ _ r) => some r
+  | _ => none
+end Ex
+
 end LtVerif.Cond
